@@ -94,6 +94,12 @@ def harness_sync():
     extra = os.path.join(HARNESS, "go.sum.extra")
     if os.path.exists(extra):
         sums.update(l for l in open(extra).read().splitlines() if l.strip())
+    gomod = ("module verif/harness\n\ngo 1.18\n\nrequire (\n\tgithub.com/PapaCharlie/go-restli v0.0.0\n"
+             "\tgithub.com/PapaCharlie/go-restli/v2 v2.0.0\n)\n\n"
+             "replace github.com/PapaCharlie/go-restli => %s\n\nreplace github.com/PapaCharlie/go-restli/v2 => %s/v2\n" % (REPO, REPO))
+    gm = os.path.join(HARNESS, "go.mod")
+    if not os.path.exists(gm) or open(gm).read() != gomod:
+        open(gm, "w").write(gomod)
     want = "\n".join(sorted(sums)) + "\n"
     dst = os.path.join(HARNESS, "go.sum")
     if not os.path.exists(dst) or open(dst).read() != want:
